@@ -257,5 +257,8 @@ probe("nested-struct-array", Struct("In", ("A", "i8"), ("B", "i64")), Struct("Ou
 
 probe("min-div-minus-one", Fn("id", [("v", "i32")], "i32", Ret(V("v"))),
       Main(Let("x", "i32", Bin("div", "i32", Call("id", I("i32", -2147483648)), Call("id", I("i32", -1)))), Print(V("x"))), feats=("min-div",))
+probe("u64-literal-above-i64-max", Main(Let("w", "u64", I("u64", 18446744073709551615)), Print(V("w"))), feats=("u64-big-literal",))
+probe("u64-arith-on-literal-above-i64-max", Main(Let("w", "u64", Bin("sub", "u64", I("u64", 18446744073709551615), I("u64", 1))), Print(V("w")),
+                                                 Let("v", "u64", Bin("add", "u64", I("u64", 9223372036854775808), I("u64", 5))), Print(V("v"))), feats=("u64-big-literal-arith",))
 probe("catch-as-argument", Fn("safediv", [("a", "i32"), ("b", "i32")], TR("str", "i32"), If(Bin("eq", "i32", V("b"), I("i32", 0)), [RetErr(Str("e"))]), Ret(Bin("div", "i32", V("a"), V("b")))),
       Main(Let("m1", "i32", I("i32", -1)), Print(Catch(Call("safediv", I("i32", 7), I("i32", 2)), V("m1")))), feats=("catch-arg",))
